@@ -109,3 +109,8 @@ func GhostBytes(name string, i int) []byte { panic(Skip{"ghost log " + name}) }
 
 // GhostIs: v equals the single value recorded in the ghost log (verifier only).
 func GhostIs(name string, v interface{}) bool { panic(Skip{"ghost log " + name}) }
+
+// Faulted: on the current path of a driver-level procedure a fault has been raised: the N2
+// association failed, a consumed reply was not a decodable NGAP message, or a message builder
+// returned an error (verifier only).
+func Faulted() bool { panic(Skip{"fault flag"}) }
